@@ -481,4 +481,21 @@ theorem Sh.rev_length (sh : Sh) : sh.rev.length = sh.size := by
 theorem Sh.idxs_length (sh : Sh) : sh.idxs.length = sh.size := by
   rw [← Sh.rev_length, Sh.rev_eq, List.length_reverse]
 
+theorem predsCtx_length : ∀ (ctx : Ctx) (sub : Sh), sub.size + (predsCtx ctx).length ≤ (plug sub ctx).size := by
+  intro ctx
+  induction ctx with
+  | nil => intro sub; simp [predsCtx, plug]
+  | cons fr rest ih =>
+    intro sub
+    cases fr with
+    | L i r => have := ih (.node sub i r); simp only [plug, predsCtx, Sh.size] at this ⊢; omega
+    | R l i =>
+      have := ih (.node l i sub)
+      simp only [plug, predsCtx, Sh.size, List.length_cons, List.length_append, Sh.rev_length] at this ⊢; omega
+
+theorem Sh.height_le_size (sh : Sh) : sh.height ≤ sh.size := by
+  induction sh with
+  | nil => simp [Sh.height, Sh.size]
+  | node l i r ihl ihr => simp only [Sh.height, Sh.size]; omega
+
 end XrsVerif.ILVs
